@@ -28,6 +28,8 @@ func Run(m *mon.M) {
 	m.Require("ceq.queries", 5000)
 	m.Require("ceq.single_cell_multi_shape", 200)
 	m.Require("locate.queries", 5000)
+	m.Require("collection.vertices_at_index_cell_centre", 100)
+	m.Require("collection.many_loop_shapes", 100)
 	maxE := m.N(1500, 10000)
 	m.Stream("collection", m.N(2500, 100000), func(c *mon.Case) { collection(c, maxE) })
 	m.Stream("cellrel", m.N(3000, 100000), cellRelations)
@@ -103,6 +105,25 @@ func collection(c *mon.Case, maxE int) {
 	var objs []*gen.Obj
 	idx := s2.NewShapeIndex()
 	total := 0
+	var centreCells []s2.CellID
+	switch r.Intn(8) {
+	case 0: // one areal shape with vertices exactly at the centres of its index cells
+		sp, cells := gen.VerticesAtIndexCellCentres(r, gen.RandLoopSpec(r, 80))
+		o := gen.ArealObj(r, [][]s2.Point{sp.Vs})
+		objs, nObj, ctr, scale, centreCells = append(objs, o), 0, sp.Center, sp.RMax, cells
+		idx.Add(o.Shape)
+		total += o.Shape.NumEdges()
+		contract(c, o)
+		c.Count("collection.vertices_at_index_cell_centre", int64(len(cells)))
+	case 1: // a polygon of 13..40 loops (the chain lookups switch algorithm above 12 loops)
+		o := gen.ArealObj(r, gen.Islands(r, ctr, math.Min(scale, 1.0), 13+r.Intn(28)))
+		objs = append(objs, o)
+		idx.Add(o.Shape)
+		total += o.Shape.NumEdges()
+		contract(c, o)
+		c.Count("collection.many_loop_shapes", 1)
+		nObj = r.Intn(3)
+	}
 	for i := 0; i < nObj && total < maxE; i++ {
 		at := ctr
 		if r.Intn(2) == 0 {
@@ -223,6 +244,12 @@ func collection(c *mon.Case, maxE int) {
 		ps = append(ps, gen.Near(r, ctr, scale*3*r.Float64()))
 	}
 	ps = append(ps, gen.Uniform(r), s2.OriginPoint())
+	for _, id := range centreCells { // points inside the index cells whose centre is a vertex
+		cell := s2.CellFromCellID(id)
+		for k := 0; k < 4; k++ {
+			ps = append(ps, cell.Vertex(k), gen.Near(r, cell.Center(), r.Float64()*0.3*cell.Vertex(0).Distance(cell.Vertex(2)).Radians()))
+		}
+	}
 
 	// ---- iterator location ----
 	it := idx.Iterator()
